@@ -918,16 +918,25 @@ static bool expand_macro(Token **rest, Token *tok) {
 
 // For a path that was found through the include paths, the position
 // of its directory in the list, plus one.
-static HashMap include_dir_idx;
+
+// The position in the include paths, plus one, of the directory in
+// which the last search found the file, or 0 if no directory was
+// searched. A path string does not tell: the same file can be reached
+// as x.h in a/b and as b/x.h in a.
+static int found_dir_idx;
 
 char *search_include_paths(char *filename) {
+  found_dir_idx = 0;
   if (filename[0] == '/')
     return filename;
 
   static HashMap cache;
+  static HashMap cache_idx;
   char *cached = hashmap_get(&cache, filename);
-  if (cached)
+  if (cached) {
+    found_dir_idx = (long)hashmap_get(&cache_idx, filename);
     return cached;
+  }
 
   // Search a file from the include paths.
   for (int i = 0; i < include_paths.len; i++) {
@@ -935,7 +944,8 @@ char *search_include_paths(char *filename) {
     if (!file_exists(path))
       continue;
     hashmap_put(&cache, filename, path);
-    hashmap_put(&include_dir_idx, path, (void *)(long)(i + 1));
+    hashmap_put(&cache_idx, filename, (void *)(long)(i + 1));
+    found_dir_idx = i + 1;
     return path;
   }
   return NULL;
@@ -946,11 +956,12 @@ char *search_include_paths(char *filename) {
 // include paths (the main file, or a header found next to its
 // includer) searches all of them.
 static char *search_include_next(char *filename, File *current) {
+  found_dir_idx = 0;
   for (int i = current->include_dir_idx; i < include_paths.len; i++) {
     char *path = format("%s/%s", include_paths.data[i], filename);
     if (!file_exists(path))
       continue;
-    hashmap_put(&include_dir_idx, path, (void *)(long)(i + 1));
+    found_dir_idx = i + 1;
     return path;
   }
   return NULL;
@@ -1051,7 +1062,7 @@ static char *file_identity(char *path) {
   return format("%ld:%ld", (long)st.st_dev, (long)st.st_ino);
 }
 
-static Token *include_file(Token *tok, char *path, Token *filename_tok, bool searched) {
+static Token *include_file(Token *tok, char *path, Token *filename_tok, int dir_idx) {
   // Check for "#pragma once". The same file may be reached through
   // different paths, so files are told apart by what they are on disk.
   char *id = file_identity(path);
@@ -1074,8 +1085,7 @@ static Token *include_file(Token *tok, char *path, Token *filename_tok, bool sea
   if (!tok2)
     error_tok(filename_tok, "%s: cannot open file: %s", path, strerror(errno));
   tok2->file->include_depth = filename_tok->file->include_depth + 1;
-  if (searched)
-    tok2->file->include_dir_idx = (long)hashmap_get(&include_dir_idx, path);
+  tok2->file->include_dir_idx = dir_idx;
 
   guard_name = detect_include_guard(tok2);
   if (guard_name)
@@ -1154,13 +1164,13 @@ static Token *preprocess2(Token *tok) {
       if (filename[0] != '/' && is_dquote) {
         char *path = format("%s/%s", dirname(strdup(start->file->name)), filename);
         if (file_exists(path)) {
-          tok = include_file(tok, path, start->next->next, false);
+          tok = include_file(tok, path, start->next->next, 0);
           continue;
         }
       }
 
       char *path = search_include_paths(filename);
-      tok = include_file(tok, path ? path : filename, start->next->next, path != NULL);
+      tok = include_file(tok, path ? path : filename, start->next->next, path ? found_dir_idx : 0);
       continue;
     }
 
@@ -1168,7 +1178,7 @@ static Token *preprocess2(Token *tok) {
       bool ignore;
       char *filename = read_include_filename(&tok, tok->next, &ignore);
       char *path = search_include_next(filename, start->file);
-      tok = include_file(tok, path ? path : filename, start->next->next, path != NULL);
+      tok = include_file(tok, path ? path : filename, start->next->next, path ? found_dir_idx : 0);
       continue;
     }
 
